@@ -23,6 +23,7 @@ def plan(tier, seed):
     # live-exchange double: response timings against order-stream updates (BetfairOrder) ...
     n = 1500 if tier == "quick" else 40000
     cases += [{"mode": "live_walk", "seed": seed, "idx": i, "cfg": {"n": 1 + i % 3, "async": i % 4 == 3}, "len": 9 + i % 6} for i in range(n)]
+    cases += [{"mode": "betdaq_walk", "seed": seed, "idx": i, "len": 12 + i % 10} for i in range(n // 2)]
     # ... and every fault plan of the C12 enumeration (failure / timeout / lost-then-retried replies)
     from . import c12
 
@@ -30,7 +31,157 @@ def plan(tier, seed):
     return cases
 
 
+class BetdaqDouble:
+    """Betdaq counterpart of the exchange double: dict reports as BetdaqExecution reads them, polled order dicts
+    as process_betdaq_current_order reads them."""
+
+    def __init__(self, rng):
+        self.rng = rng
+        self.orders = {}
+        self.next_id = 7000001
+        self.seq = 0
+        self.fail_next = None
+
+    def _bump(self, o):
+        self.seq += 1
+        o["sequence_number"] = self.seq
+
+    def place_orders(self, order_list):
+        out = []
+        for ins in order_list:
+            ref = ins["PunterReferenceNumber"] if isinstance(ins, dict) else getattr(ins, "PunterReferenceNumber", None)
+            rc = 0 if self.rng.random() < 0.85 else 15
+            rep = {"customer_reference": ref, "return_code": rc}
+            if rc == 0:
+                oid = self.next_id
+                self.next_id += 1
+                o = {"order_id": oid, "customer_reference": ref, "status": "Unmatched", "price": ins["Price"], "matched_size": 0.0, "matched_price": 0.0, "remaining_size": ins["Stake"], "size": ins["Stake"]}
+                self._bump(o)
+                self.orders[oid] = o
+                rep["order_id"] = oid
+            out.append(rep)
+        self.rng.shuffle(out)
+        return out
+
+    def cancel_orders(self, order_ids):
+        out = []
+        for oid in order_ids:
+            o = self.orders.get(oid)
+            if o is None or self.rng.random() < 0.15:
+                continue  # not returned
+            if o["status"] == "Unmatched":
+                o["status"] = "Cancelled"
+                o["remaining_size"] = 0.0
+                self._bump(o)
+            out.append({"order_id": oid})
+        return out
+
+    def update_orders(self, order_list):
+        out = []
+        for ins in order_list:
+            oid = ins["BetId"]
+            o = self.orders.get(oid)
+            rc = 0 if (o is not None and o["status"] == "Unmatched" and self.rng.random() < 0.8) else 22
+            if rc == 0:
+                o["price"] = ins["Price"]
+                o["remaining_size"] = round(o["remaining_size"] + (ins.get("DeltaStake") or 0.0), 2)
+                self._bump(o)
+            out.append({"order_id": oid, "return_code": rc})
+        return out
+
+    def fill(self, oid):
+        o = self.orders[oid]
+        if o["status"] == "Unmatched":
+            o["matched_size"] = o["remaining_size"]
+            o["matched_price"] = o["price"]
+            o["remaining_size"] = 0.0
+            o["status"] = "Matched"
+            self._bump(o)
+
+    def poll(self):
+        import copy
+
+        return [copy.deepcopy(o) for o in self.orders.values()]
+
+
+def run_betdaq_walk(desc):
+    from flumine import Flumine, clients, config as fconfig
+    from flumine.order.trade import Trade
+    from flumine.order.ordertype import BetdaqLimitOrder
+    from flumine.events.events import CurrentOrdersEvent
+    from flumine.clients.clients import ExchangeType
+    from flumine.exceptions import FlumineException
+    from .. import live, livecases, simgen
+
+    rng = simgen.mk_rng(desc["seed"], desc["idx"], 33)
+    fconfig.simulated = False
+    tr = simrun.Trace()
+    simrun.attach(tr)
+    dbl = BetdaqDouble(rng)
+    api = live.FakeAPI(dbl, "bdq")
+    client = clients.BetdaqClient(api, order_stream=False, transaction_limit=None)
+    fw = Flumine(client=client)
+    tr.framework = fw
+    ex = live.ControlledExecutor()
+    fw.betdaq_execution._thread_pool = ex
+    st = livecases.make_strategy("B0")
+
+    class _S:
+        stream_id = 7
+
+    st.streams = [_S()]
+    fw.strategies(st, fw.clients, fw)
+    out = O.Out(PROPERTY)
+    try:
+        w = live.LiveWorld.__new__(live.LiveWorld)
+        w.fw, w.stream_id, w.gens, w.books = fw, 7, {}, {}
+        mid = w.add_market_file(livecases.static_market())
+        w.next_book(mid)
+        m = fw.markets.markets[mid]
+        orders = []
+        for step in range(desc["len"]):
+            k = rng.random()
+            try:
+                if k < 0.25 or not orders:
+                    o = Trade(mid, rng.choice((701, 702)), 0, st).create_betdaq_order(rng.choice(("BACK", "LAY")), BetdaqLimitOrder(rng.choice((2.0, 3.05)), 2.0, 1, 0, 0))
+                    if m.place_order(o):
+                        orders.append(o)
+                elif k < 0.45 and ex.queue:
+                    ex.run(0)
+                elif k < 0.6:
+                    o = rng.choice(orders)
+                    if rng.random() < 0.5:
+                        m.cancel_order(o)
+                    else:
+                        m.update_order(o, size_delta=rng.choice((0.0, 1.0)), new_price=rng.choice((None, 3.0)))
+                elif k < 0.75:
+                    live_ids = [oid for oid, x in dbl.orders.items() if x["status"] == "Unmatched"]
+                    if live_ids:
+                        dbl.fill(rng.choice(live_ids))
+                else:
+                    fw._process_current_orders(CurrentOrdersEvent(dbl.poll(), exchange=ExchangeType.BETDAQ))
+            except FlumineException:
+                pass
+        ex.run_all()
+        fw._process_current_orders(CurrentOrdersEvent(dbl.poll(), exchange=ExchangeType.BETDAQ))
+        O.c03_lifecycle(tr, out, {}, exec_class="Betdaq")
+        # at quiescence (all responses delivered, latest poll processed) no order is left in flight
+        for o in orders:
+            out.rule("betdaq-quiescent")
+            if o.status is not None and o.status.name in ("CANCELLING", "UPDATING", "REPLACING"):
+                bo = dbl.orders.get(o.bet_id)
+                out.v("betdaq-order-left-in-flight-after-poll", {"status": o.status.name}, bet=bo)
+        out.c("betdaq_walks")
+    finally:
+        simrun.detach()
+        for e in (fw.simulated_execution, fw.betfair_execution):
+            e._thread_pool.shutdown(wait=False)
+    return out.result()
+
+
 def run(desc):
+    if desc.get("mode") == "betdaq_walk":
+        return run_betdaq_walk(desc)
     if desc.get("mode") == "live_walk":
         from . import c11
 
